@@ -81,6 +81,27 @@ func c15Main(r *run.Runner) {
 		c15One(w, a+";"+b)
 		c15One(w, "let x = ';'; "+a+"; // ;\n"+b+";")
 	})
+	// many diagnostics: k statements with e errors each, then well-formed statements; long runs of error tokens over several pieces
+	type many struct{ k, e int }
+	var manys []many
+	for _, k := range []int{1, 2, 3, 5, 9, 10, 11, 33, 100, 101} {
+		for _, e := range []int{1, 2, 5, 9, 10, 11, 50, 99, 100, 101, 1000} {
+			if k*e <= 12000 {
+				manys = append(manys, many{k, e})
+			}
+		}
+	}
+	r.Sweep("many-errors", int64(len(manys)), func(w *run.Worker, item int64) {
+		m := manys[item]
+		for _, bad := range []string{"|frob", "| where", " )", " #", "| take 'x"} {
+			var sb strings.Builder
+			for i := 0; i < m.k; i++ {
+				fmt.Fprintf(&sb, "Events%d%s; ", i, strings.Repeat(bad, m.e))
+			}
+			c15One(w, sb.String()+"let n = 5; Users | where Age > n | count")
+			c15One(w, "let n = 5; "+sb.String()+"Users | count; T")
+		}
+	})
 	r.Sweep("semicolon-insertion", int64(len(corpus)), func(w *run.Worker, item int64) {
 		p := corpus[item]
 		for off := 0; off <= len(p); off++ {
@@ -207,6 +228,7 @@ func c15One(w *run.Worker, s string) {
 	if err != nil {
 		// even a failing parse reports each statement inside one piece, in order
 		last := -1
+		hit := map[int]int{}
 		for k, st := range stmts {
 			// extent of all non-empty spans recorded anywhere in the statement's (partial) tree
 			sp := parser.Span{Start: -1, End: -1}
@@ -239,6 +261,27 @@ func c15One(w *run.Worker, s string) {
 				return
 			}
 			last = pi
+			hit[pi] = k
+		}
+		// errors elsewhere do not remove a well-formed statement: a piece that parses alone is reported, with the same tree
+		for pi, p := range pieces {
+			var pst []parser.Statement
+			var perr error
+			if !w.Try(p, func() { pst, perr = parser.Parse(p) }) {
+				return
+			}
+			if perr != nil || len(pst) != 1 {
+				continue
+			}
+			k, ok := hit[pi]
+			if !ok {
+				w.Fail("parse:good-statement-dropped", s, fmt.Sprintf("piece %d %q parses alone, but the parse of the whole source (which fails elsewhere) reports no statement inside it; %d statements for %d pieces", pi, p, len(stmts), len(pieces)), nil)
+				return
+			}
+			if ok, path := astx.EqualShift(stmts[k], pst[0], exts[pi].start, false); !ok {
+				w.Fail("parse:piece-tree-differs", s, fmt.Sprintf("statement %d (source fails elsewhere) vs piece %d %q parsed alone: %s", k, pi, p, path), nil)
+				return
+			}
 		}
 		return
 	}
